@@ -67,7 +67,7 @@ func (f *ReadLine) Call(s *slip.Scope, args slip.List, depth int) slip.Object {
 	}
 	rr, ok := is.(io.RuneReader)
 	if !ok {
-		slip.TypePanic(s, depth, "stream", args[0], "input-stream")
+		slip.TypePanic(s, depth, "stream", is, "input-stream")
 	}
 	// Not at all efficient but it's the best that can be done with a buffered
 	// input.
@@ -90,9 +90,11 @@ func (f *ReadLine) Call(s *slip.Scope, args slip.List, depth int) slip.Object {
 					}
 					return slip.Values{result, slip.True}
 				}
-				ss, _ := is.(slip.Stream)
-				slip.StreamPanic(s, depth, ss, "read failed. %s", err)
 			}
+			// End of file with nothing read and any other failure such as
+			// reading from a closed stream.
+			ss, _ := is.(slip.Stream)
+			slip.StreamPanic(s, depth, ss, "read failed. %s", err)
 		}
 		if r == '\n' {
 			break
